@@ -389,6 +389,9 @@ def check(prog, rep, tier):
                     for cand in [n for n in walk(end) if n[0] == "hv"] + [bv for bv in binds.values()]:
                         if e_c == canon(("bin", "+", ("bin", "+", start, qs), cand)):
                             T = cand
+                    if okc and T is None and L is not None and e_c == canon(("bin", "+", ("bin", "+", start, qs), allocs[0].value and
+                                                                                     (rest[0] if len(rest) == 1 else ("nary", "*", tuple(rest))))):
+                        T = rest[0] if len(rest) == 1 else ("nary", "*", tuple(rest))  # end = start + Q + allocation length, written out
                     okc = okc and T is not None and L is not None
                     if okc and T[0] == "hv":
                         vals = {canon(e.value) for q in ps for e in q.events if e.kind == "bind" and e.name == T[1] and e.loops}
